@@ -174,6 +174,8 @@ def build(case):
                 return SourceCatalog(d, segm.copy(), error=e, background=b,
                                      wcs=wcs,
                                      localbkg_width=case['localbkg_width'],
+                                     kron_params=tuple(case.get(
+                                         'kron_params', (2.5, 1.4, 0.0))),
                                      detection_cat=det)
         return mk
     pos = [(s.bbox.center[1] + 0.3, s.bbox.center[0] - 0.2)
@@ -345,15 +347,22 @@ def _independence(case, parent, child, ref, idx, idx2, ctx):
                 pname = f'kron{op[2]}'
                 if pname + '_flux' in actor.extra_properties:
                     continue
-                actor.kron_photometry((2.0 + op[2] % 3, [0.5, 3.5, 8.0][op[2] % 3],
-                                       0.0), name=pname)
+                # 2- and 3-element forms; the minimum circular radius
+                # (3rd element) is large enough to trigger for some sources
+                kp = (2.0 + op[2] % 3, [0.5, 1.0, 3.5, 8.0][op[2] % 4],
+                      [0.0, 5.0, 9.0][(op[2] // 2) % 3])
+                if op[2] == 9:
+                    kp = kp[:2]
+                actor.kron_photometry(kp, name=pname)
             elif name == 'fluxfrac':
                 pname = f'r{op[2]}'
                 if pname in actor.extra_properties:
                     continue
                 actor.fluxfrac_radius(0.3 + 0.1 * (op[2] % 5), name=pname)
             elif name == 'kron_aper':
-                actor.make_kron_apertures(kron_params=(2.5, [0.2, 4.0, 9.0][op[2] % 3], 0.0))
+                actor.make_kron_apertures(kron_params=(
+                    2.5, [0.2, 1.0, 4.0, 9.0][op[2] % 4],
+                    [0.0, 6.0][(op[2] // 4) % 2]))
         except ValueError as exc:
             if 'already exists' in str(exc) or 'built-in' in str(exc):
                 continue
@@ -414,6 +423,8 @@ def history_cases(draw):
         'wcs': draw(st.booleans()), 'quantity': draw(st.integers(0, 3)) == 0,
         'localbkg_width': draw(st.sampled_from([0, 0, 6])),
         'detection_cat': draw(st.integers(0, 3)) == 0,
+        'kron_params': draw(st.sampled_from([[2.5, 1.4, 0.0], [2.5, 1.4, 0.0],
+                                             [2.5, 1.0, 6.0], [2.0, 1.0]])),
         'ap_r': draw(st.floats(2.0, 5.0)),
         'sky_aperture': draw(st.booleans()),
         'sigma_clip': draw(st.booleans()),
